@@ -18,7 +18,7 @@ using vf::Case; using vf::Op;
 
 namespace {
 
-struct Trial { double est, lb[3], ub[3]; };
+struct Trial { double est, lb[3], ub[3]; double paired = 0; };
 
 const int LGKS_THETA[] = {5, 8, 12};
 const int LGKS_HLL[] = {4, 8, 13};
@@ -69,6 +69,9 @@ void prop(const Case& cs) {
         for (uint64_t i = 0; i < n; ++i) { if (i < 2 * n / 3) a.update(b + i); if (i >= n / 3) c.update(b + i); }
         hll_union u(static_cast<uint8_t>(lg_k)); u.update(a); u.update(c);
         tr.est = u.get_estimate(); for (int s = 0; s < 3; ++s) { tr.lb[s] = u.get_lower_bound(s + 1); tr.ub[s] = u.get_upper_bound(s + 1); }
+        // paired control: one in-order sketch of the same stream (its estimate is the HIP estimator, the union's the composite one)
+        hll_sketch whole(static_cast<uint8_t>(lg_k), ty); for (uint64_t i = 0; i < n; ++i) whole.update(b + i);
+        tr.paired = whole.get_estimate();
       }
     } else {
       if (!uni) { cpc_sketch a(static_cast<uint8_t>(lg_k)); for (uint64_t i = 0; i < n; ++i) a.update(b + i); tr.est = a.get_estimate(); for (int s = 0; s < 3; ++s) { tr.lb[s] = a.get_lower_bound(s + 1); tr.ub[s] = a.get_upper_bound(s + 1); } }
@@ -92,6 +95,17 @@ void prop(const Case& cs) {
   } else {
     VF_CHECK(std::fabs(mean) <= 0.15 * rse + 5.0 * rse / std::sqrt(static_cast<double>(T)), "bias", who.str() << ": mean relative error " << mean << " vs published RSE " << rse);
     VF_CHECK(sd <= 1.15 * rse * (1.0 + 5.0 / std::sqrt(2.0 * T)), "spread", who.str() << ": std of relative error " << sd << " exceeds published RSE " << rse);
+    if (fam == 2 && uni) {
+      // Both the union's estimate and the single sketch's estimate of the same stream have negligible bias, so their difference has
+      // too; the two are strongly correlated (same registers), which makes this far sharper than the comparison with n above.
+      // Slack 0.04*RSE: calibrated over lg_k {4,8,13} x n {k/2,2k,16k,20..128k} with 3000 trials, largest |mean difference| 0.018*RSE (sampling noise 0.055*RSE).
+      double md = 0; for (auto& t : trials) md += (t.est - t.paired) / dn; md /= T;
+      double vd = 0; for (auto& t : trials) { double r = (t.est - t.paired) / dn - md; vd += r * r; } vd /= std::max<long>(1, T - 1);
+      double sdd = std::sqrt(vd);
+      if (!vf::env("C06_CALIB").empty()) fprintf(stderr, "CALIB paired lg_k=%d n=%llu T=%ld md/rse=%.4f sdd/rse=%.4f\n", lg_k, static_cast<unsigned long long>(n), T, md / rse, sdd / rse);
+      VF_CHECK(std::fabs(md) <= 0.04 * rse + 5.0 * sdd / std::sqrt(static_cast<double>(T)), "paired-bias", who.str() << ": union estimate minus single-sketch estimate of the same stream averages " << md << " of n (std " << sdd << "), published RSE " << rse);
+      vf::label("hll-union-paired");
+    }
     static const double nominal[] = {0.6827, 0.9545, 0.9973};
     for (int s = 0; s < 3; ++s) {
       long in = 0; for (auto& t : trials) in += (t.lb[s] <= dn && dn <= t.ub[s]);
